@@ -102,7 +102,7 @@ class HighloadWalletData(TlbScheme):
             .store_uint(self.wallet_id, 32) \
             .store_uint(self.last_cleaned, 64) \
             .store_bytes(self.public_key)\
-            .store_dict(HashMap(key_size=64, value_serializer=self.old_queries_serializer).serialize())
+            .store_dict(HashMap(key_size=64, value_serializer=self.old_queries_serializer, map_=self.old_queries).serialize())
         return builder.end_cell()
 
     @classmethod
